@@ -125,7 +125,10 @@ WellFormedId(w) == /\ Len(w) >= 1 /\ (IsAlpha(w[1]) \/ w[1] = 95) /\ w[Len(w)] #
                    /\ \A i \in 1..Len(w) : w[i] = 46 => LowerSeq(SubSeq(w, 1, i - 1)) \notin Keywords
 IdWords == { w \in { CatAtoms(q) : q \in AtomSeqs(IdAtomsMax) } : WellFormedId(w) }
 IdTree(w) == LET parts == SplitDots(w) IN <<"Id", SubSeq(parts, 1, Len(parts) - 1), parts[Len(parts)]>>
-Identifiers == { [kind |-> "Id", text |-> w, val |-> w, mean |-> <<"id">>] : w \in IdWords }
+\* identifiers at the length limit (128 word characters; the dots of a namespace do not count)
+Rep(c, k) == [i \in 1..k |-> c]
+LongIds == { Rep(120, 128), S("ns0.ns1.ns2.") \o Rep(120, 116), S("a.") \o Rep(98, 127), S("n.s.") \o Rep(95, 126) }
+Identifiers == { [kind |-> "Id", text |-> w, val |-> w, mean |-> <<"id">>] : w \in IdWords \cup LongIds }
 
 Families == {"Integer", "Float", "Boolean", "Null", "String", "Geography", "GUID", "Date", "Time", "DateTime", "Duration", "Id"}
 CasesOf(f) == CASE f = "Integer" -> Integers [] f = "Float" -> Decimals [] f = "Boolean" -> Booleans [] f = "Null" -> Nulls
